@@ -31,7 +31,7 @@ REQUIRED_COUNTERS = {'c10_evaluations_repeated': 60,
 SHARD_TIMEOUT = {'quick': 900, 'thorough': 5400}
 MONITORS = [monitors.c10_no_adjacent_duplicates,
             monitors.c10_no_phantom_hold]
-LAYOUTS = ['d1', 'd2', 's1d2', 'd1M1d2', 'h1d2']
+LAYOUTS = ['d1', 'd2', 's1d2', 'd1M1d2', 'h1d2', 'd3', 'd4']
 
 
 def op_reset_twice(g):
@@ -62,7 +62,9 @@ def op_blocked(g):
 OPENERS = [None, op_reset_twice, op_help_then_status, op_blocked,
            gen.OPENERS['two_prs_same_base'], gen.OPENERS['three_queued'],
            gen.OPENERS['partial_merge'], gen.OPENERS['partial_merge'],
-           gen.OPENERS['dependency_then_other']]
+           gen.OPENERS['dependency_then_other'],
+           gen.OPENERS['conflict_on_later_target'],
+           gen.OPENERS['conflict_on_later_target']]
 
 
 def plan(tier, seed):
